@@ -1,1 +1,1 @@
-
+import SgeProofs.Properties.C13
